@@ -453,6 +453,10 @@ impl<'a> Outbound<'a> {
     }
 
     pub(super) fn arm_replay(&mut self) {
+        // A queued PINGREQ belongs to the keep-alive of the transport it was queued for; it is
+        // not session state and must not be replayed on the next connection.
+        self.pending_control
+            .retain(|entry| !matches!(entry.action, ControlAction::PingReq));
         if !self.has_pending_state() {
             return;
         }
